@@ -1,9 +1,12 @@
 use super::{EvaluationFrame, FieldElement};
 use crate::{
-    trace::chiplets::{
-        memory::NUM_ELEMENTS, MEMORY_ADDR_COL_IDX, MEMORY_CLK_COL_IDX, MEMORY_CTX_COL_IDX,
-        MEMORY_D0_COL_IDX, MEMORY_D1_COL_IDX, MEMORY_D_INV_COL_IDX, MEMORY_TRACE_OFFSET,
-        MEMORY_V_COL_RANGE,
+    trace::{
+        chiplets::{
+            memory::NUM_ELEMENTS, MEMORY_ADDR_COL_IDX, MEMORY_CLK_COL_IDX, MEMORY_CTX_COL_IDX,
+            MEMORY_D0_COL_IDX, MEMORY_D1_COL_IDX, MEMORY_D_INV_COL_IDX, MEMORY_TRACE_OFFSET,
+            MEMORY_V_COL_RANGE,
+        },
+        CHIPLETS_OFFSET,
     },
     utils::{binary_not, collections::*, is_binary, EvaluationResult},
 };
@@ -148,9 +151,11 @@ fn enforce_values<E: FieldElement>(
 ) -> usize {
     let mut index = 0;
 
-    // initialize memory to zero when reading from new context and address pair.
+    // initialize memory to zero when reading from new context and address pair. this constrains
+    // the current row alone, so it is enforced on every row of the memory trace, including the
+    // last one (which the transition flag excludes).
     for i in 0..NUM_ELEMENTS {
-        result[index] = memory_flag * frame.init_read_flag() * frame.v(i);
+        result[index] = frame.memory_row_flag() * frame.init_read_flag() * frame.v(i);
         index += 1;
     }
 
@@ -229,6 +234,11 @@ trait EvaluationFrameExt<E: FieldElement> {
     /// A flag to indicate that previously assigned memory is being accessed. In other words, the
     /// context and address have not changed.
     fn reaccess_flag(&self) -> E;
+
+    /// A flag to indicate that the current row is a row of the memory chiplet (the chiplet selectors
+    /// of the current row are 1, 1, 0); unlike the transition flag it is also set on the last row
+    /// of the memory trace.
+    fn memory_row_flag(&self) -> E;
 
     /// A flag to indicate that there is a read in the current row which requires the values to be
     /// initialized to zero.
@@ -349,6 +359,13 @@ impl<E: FieldElement> EvaluationFrameExt<E> for &EvaluationFrame<E> {
     #[inline(always)]
     fn reaccess_flag(&self) -> E {
         self.not_n0() * self.not_n1()
+    }
+
+    #[inline(always)]
+    fn memory_row_flag(&self) -> E {
+        self.current()[CHIPLETS_OFFSET]
+            * self.current()[CHIPLETS_OFFSET + 1]
+            * binary_not(self.current()[CHIPLETS_OFFSET + 2])
     }
 
     #[inline(always)]
